@@ -315,9 +315,9 @@ def gen_par(rng, keylen, neg=None):
         par["pos"] = rng.randrange(0, 6144)
         par["xor"] = rng.randrange(1, 256)
     elif neg == "two-keys":
-        k2, _ = gen_key(rng, keylen)
-        while stream_equiv(k2, envkey):
-            k2, _ = gen_key(rng, keylen)
+        k2, kind2 = gen_key(rng, keylen)
+        while stream_equiv(k2, envkey) or kind2 in ("lead7", "constant", "headerlike"):
+            k2, kind2 = gen_key(rng, keylen)  # (the second key masks the padding: same exclusion as for the first, see above)
         par["envkey2"] = k2
     return par
 
